@@ -29,6 +29,7 @@ import (
 	xdsfake "istio.io/istio/pilot/test/xds"
 	"istio.io/istio/pkg/config"
 	"istio.io/istio/pkg/config/mesh"
+	dnsProto "istio.io/istio/pkg/dns/proto"
 	"istio.io/istio/pkg/kube/krt"
 )
 
@@ -291,6 +292,10 @@ func diffClasses(a, b snapshot) []string {
 			switch {
 			case !ok:
 				set[fmt.Sprintf("%s:%s:only-in-first", short(t), n)] = true
+			case !bytes.Equal(x, y) && t == v3types.NameTableType:
+				for _, cl := range nameTableClasses(x, y) {
+					set[cl] = true
+				}
 			case !bytes.Equal(x, y):
 				set[fmt.Sprintf("%s:%s:differs@%s", short(t), n, firstDiffPath(msgOf(t, x), msgOf(t, y)))] = true
 			}
@@ -305,6 +310,32 @@ func diffClasses(a, b snapshot) []string {
 	return out
 }
 
+// nameTableClasses: one class per host name of the DNS name table that is missing on one side or
+// resolves differently.
+func nameTableClasses(x, y []byte) []string {
+	var a, b dnsProto.NameTable
+	if proto.Unmarshal(x, &a) != nil || proto.Unmarshal(y, &b) != nil {
+		return []string{"NDS:nametable:unreadable"}
+	}
+	var out []string
+	for h, ia := range a.Table {
+		ib, ok := b.Table[h]
+		switch {
+		case !ok:
+			out = append(out, "NDS:host="+h+":only-in-first")
+		case !proto.Equal(ia, ib):
+			out = append(out, "NDS:host="+h+":differs@"+firstDiffPath(ia, ib))
+		}
+	}
+	for h := range b.Table {
+		if _, ok := a.Table[h]; !ok {
+			out = append(out, "NDS:host="+h+":only-in-second")
+		}
+	}
+	sort.Strings(out)
+	return out
+}
+
 func msgOf(t string, b []byte) proto.Message {
 	var m proto.Message
 	switch t {
@@ -316,6 +347,8 @@ func msgOf(t string, b []byte) proto.Message {
 		m = &listenerv3.Listener{}
 	case v3types.RouteType:
 		m = &route.RouteConfiguration{}
+	case v3types.NameTableType:
+		m = &dnsProto.NameTable{}
 	}
 	if proto.Unmarshal(b, m) != nil {
 		return nil
@@ -334,6 +367,8 @@ func textOf(t string, b []byte) string {
 		m = &listenerv3.Listener{}
 	case v3types.RouteType:
 		m = &route.RouteConfiguration{}
+	case v3types.NameTableType:
+		m = &dnsProto.NameTable{}
 	}
 	if proto.Unmarshal(b, m) != nil {
 		return "?"
